@@ -560,7 +560,8 @@ def gen_create_solution(world, draw, profile):
         for i in world.indices('c'):
             v = world.pool[i].view
             names = {nm for nm, a in v['contents'] if a > 0}
-            if names and not (names & {world.subs[s].name for s in solutes}) and \
+            holds_solute = bool(names & {world.subs[s].name for s in solutes})
+            if names and (not holds_solute or profile.get('solvent_may_hold_solute')) and \
                     any(world.ref.subs[nm].kind == 'liquid' for nm in names) and v['vol'] > 100:
                 ok.append(i)
         if ok:
